@@ -459,7 +459,7 @@ def quant(v, bits):
     return round(v * (1 << bits)) / (1 << bits)
 
 
-OTHER_PX = [0.25, 0.5, 0.2, 0.68, 0.3125]
+OTHER_PX = [0.25, 0.5, 0.125, 0.75, 0.3125]      # dyadic: cheap in Q
 
 
 def gen_setup(rng, L, nice=True, other_px=False):
@@ -471,7 +471,7 @@ def gen_setup(rng, L, nice=True, other_px=False):
                     [0.34, 0.0, rng.uniform(0.1, 0.7)])
     if other_px:
         px = rng.choice(OTHER_PX if nice else
-                        OTHER_PX + [rng.uniform(0.1, 0.9)])
+                        OTHER_PX + [0.2, 0.68, rng.uniform(0.1, 0.9)])
     return cw, fr, px
 
 
@@ -749,7 +749,7 @@ def count_quota(run, case, where):
 def gen_corr_case(rng, L, n=None, builtin=False, other_px=False,
                   per_event=False):
     cw, fr, px = gen_setup(rng, L, nice=True, other_px=other_px)
-    n = n if n is not None else rng.choice([0, 1, 2, 3, 5, 8])
+    n = n if n is not None else rng.choice([0, 1, 2, 3, 4, 5])
     if per_event and n == 0:
         n = 3
     med = gen_medium(rng, n, L, cw, fr,
@@ -766,7 +766,7 @@ def gen_corr_case(rng, L, n=None, builtin=False, other_px=False,
 def correspondence(run):
     rng = run.rng
     groups = []          # (Lut, use_dec, [cases])
-    nuser = 200 if run.thorough else 36
+    nuser = 200 if run.thorough else 20
     per = 8 if run.thorough else 6
     for c in load_corpus():
         if "x" in c and "check" not in c:
@@ -784,7 +784,7 @@ def correspondence(run):
     for name in names:
         L = builtin_lut(name)
         groups.append((L, True, [gen_corr_case(rng, L, n=3, builtin=True)
-                                 for _ in range(8 if run.thorough else 4)]))
+                                 for _ in range(8 if run.thorough else 2)]))
 
     # small (generated) tables travel with their cases, several tables per
     # coqc run; a built-in table is defined once in the header of its run
@@ -1573,7 +1573,7 @@ def oracle_cases(run):
                 case["rseed"] = rng.randrange(1 << 30)
                 out.append((case, kinds))
     # generated tables: many calls, few events
-    for k in range(1500 if th else 120):
+    for k in range(1500 if th else 90):
         vol = k % 4 == 0
         L = gen_user_lut(rng, dyadic=rng.random() < 0.3, nmax=60,
                          feat="volume" if vol else None)
